@@ -7,5 +7,7 @@ type syntaxQueryParamLiteral struct {
 func (l *syntaxQueryParamLiteral) compute(
 	_ interface{}, _ []interface{}) []interface{} {
 
-	return l.literal
+	// Comparators and validators write their verdicts into the list they are given,
+	// so the literal stored in the parsed tree must never be handed out itself.
+	return []interface{}{l.literal[0]}
 }
